@@ -56,13 +56,25 @@ theorem startStorageE_inv (c : StorageCfg) (st : Started) (h : startStorageE c =
     rename_i hro _ _ hrs _ _ hdd _ en hen _ _ old hold _ cut _ _ himm _ _ hmut _ hmode hcut
     refine ⟨en, _, old, cut, hro, hrs, ⟨_, hdd⟩, hen, hmode, hold, hcut, himm, hmut, by simp, rfl, rfl, by simp, by simp⟩
 
+theorem getConfig_some {raw : Option (List Sym)} {v' : List Sym} (h : getConfig raw = some v') :
+    ∃ v, raw = some v ∧ v' = strip v := by
+  cases raw with
+  | none => simp [getConfig] at h
+  | some v => simp only [getConfig, Option.some.injEq] at h; exact ⟨v, rfl, h.symm⟩
+
+theorem getConfig_none {raw : Option (List Sym)} (h : getConfig raw = none) : raw = none := by
+  cases raw with
+  | none => rfl
+  | some v => simp [getConfig] at h
+
 theorem readReserved_ok (c : StorageCfg) (n : Nat) (h : readReserved c = .ok n) :
     (c.reservedSpace = none ∧ n = 0) ∨
     ∃ v, c.reservedSpace = some v ∧ ((strip v = [] ∧ n = 0) ∨ parseSize (strip v) = .ok n) := by
   unfold readReserved at h
   split at h
-  · rename_i hc; left; simp only [Except.ok.injEq] at h; exact ⟨hc, h.symm⟩
-  · rename_i v hc
+  · rename_i hc; left; simp only [Except.ok.injEq] at h; exact ⟨getConfig_none hc, h.symm⟩
+  · rename_i v' hc'
+    obtain ⟨v, hc, rfl⟩ := getConfig_some hc'
     right
     refine ⟨v, hc, ?_⟩
     unfold liftRes at h
@@ -77,8 +89,9 @@ theorem readOverride_ok (c : StorageCfg) (o : Option Nat) (h : readOverride c = 
     ∃ v n, c.overrideLeaseDuration = some v ∧ parseDuration (strip v) = .ok n ∧ o = some n := by
   unfold readOverride at h
   split at h
-  · rename_i hc; left; simp only [Except.ok.injEq] at h; exact ⟨hc, h.symm⟩
-  · rename_i v hc
+  · rename_i hc; left; simp only [Except.ok.injEq] at h; exact ⟨getConfig_none hc, h.symm⟩
+  · rename_i v' hc'
+    obtain ⟨v, hc, rfl⟩ := getConfig_some hc'
     right
     cases hp : parseDuration (strip v) with
     | ok n => rw [hp] at h; simp [liftRes, Except.map] at h; exact ⟨v, n, hc, hp, h.symm⟩
@@ -92,7 +105,8 @@ theorem readCutoff_ok (c : StorageCfg) (o : Option Int) (h : readCutoff c .cutof
   simp only [if_true] at h
   split at h
   · simp at h
-  · rename_i v hc
+  · rename_i v' hc'
+    obtain ⟨v, hc, rfl⟩ := getConfig_some hc'
     cases hp : parseDate (strip v) with
     | ok t => rw [hp] at h; simp [liftRes, Except.map] at h; exact ⟨v, t, hc, hp, h.symm⟩
     | none => exact absurd hp (parseDate_ne_none _)
@@ -134,5 +148,63 @@ theorem startStorageE_of_reads (c : StorageCfg) (ro dd en imm mu : Bool) (rs : N
   unfold startStorageE
   simp only [bind, Except.bind, h1, h2, h3, h4, h5, h6, h7, h8, h9]
   cases mode <;> rfl
+
+/-! ### `str.strip()`, `getboolean`, the mode literals -/
+
+theorem dropWs_allWs (v : List Sym) (h : v.all isWs = true) : dropWs v = [] := by
+  have := dropWs_append_ws v [] h
+  simpa [dropWs] using this
+
+theorem strip_allWs (v : List Sym) (h : v.all isWs = true) : strip v = [] := by
+  simp [strip, dropWs_allWs v h, dropWs]
+
+/-- stripping removes exactly the surrounding whitespace -/
+theorem strip_pad (pre w post : List Sym) (hpre : pre.all isWs = true) (hpost : post.all isWs = true)
+    (hne : w ≠ []) (hh : headNotWs w = true) (hl : headNotWs w.reverse = true) :
+    strip (pre ++ w ++ post) = w := by
+  have h1 : headNotWs (w ++ post) = true := by
+    cases w with
+    | nil => exact absurd rfl hne
+    | cons x xs => simpa [headNotWs] using hh
+  have hpr : post.reverse.all isWs = true := by
+    simp only [List.all_eq_true, List.mem_reverse] at hpost ⊢; exact hpost
+  unfold strip
+  rw [List.append_assoc, dropWs_append_ws _ _ hpre, dropWs_of_headNotWs _ h1, List.reverse_append,
+    dropWs_append_ws _ _ hpr, dropWs_of_headNotWs _ hl, List.reverse_reverse]
+
+/-- a case variant of an alphabetic word has no whitespace at either end -/
+theorem variant_ends (w : List Sym) (word : List Nat) (hw : w.map lowerSym = wordSyms word) :
+    headNotWs w = true ∧ headNotWs w.reverse = true := by
+  have hall : ∀ x ∈ w, isWs x = false := by
+    intro x hx
+    have : lowerSym x ∈ w.map lowerSym := List.mem_map.mpr ⟨x, hx, rfl⟩
+    rw [hw] at this
+    obtain ⟨c, -, hc⟩ := List.mem_map.mp this
+    exact not_isWs_of_lowerSym hc.symm
+  constructor
+  · cases w with
+    | nil => rfl
+    | cons x xs => simp [headNotWs, hall x (by simp)]
+  · cases hr : w.reverse with
+    | nil => rfl
+    | cons x xs =>
+      have : x ∈ w := by rw [← List.mem_reverse, hr]; simp
+      simp [headNotWs, hall x this]
+
+theorem classifyBool_blank (v : List Sym) (h : v.all isWs = true) : classifyBool v = .bad := by
+  simp [classifyBool, strip_allWs v h, trueWords, falseWords, wordSyms]
+
+theorem classifyMode_blank (v : List Sym) (h : v.all isWs = true) : classifyMode v = .other := by
+  simp [classifyMode, strip_allWs v h, wordSyms]
+
+theorem not_docDuration_nil : ¬ ∃ n, DocDuration [] n := by
+  rintro ⟨n, pre, ds, mid, w, post, word, k, hs, -, -, -, hds, -⟩
+  cases ds with
+  | nil => exact hds rfl
+  | cons d ds => simp at hs
+
+theorem not_docDate_nil : ¬ ∃ t, DocDate [] t := by
+  rintro ⟨t, a, b, c, d, e, f, g, h, hs, -⟩
+  simp at hs
 
 end Tahoe.Config
